@@ -24,6 +24,18 @@ def cases(tier):
         if tier == 'thorough':
             L.append(fsm_case('C01', fx, 'req2_update', base + ['ENTRY=3', 'NREQ=2', 'EXT_KINDS=' + kinds], timeout=1800))
             L.append(fsm_case('C01', fx, 'construct', ['FROM_CONSTRUCTION', 'ENTRY=1', 'P_C01', 'CB_KINDS=' + kinds, 'CB_BUDGET=1'], timeout=1800, witness=False))
+    # deep nesting below an orthogonal region and a width-5 region: every immediate kind to a symbolic destination, callbacks silent
+    for fam in ('fdo', 'fw5'):
+        o = dict(sublimit=2, callbacks=['guard', 'life', 'select'], act=[], kinds=0)
+        fx = fixture('C01', fam, o)
+        for k in (1, 2, 3, 4):
+            L.append(fsm_case('C01', fx, 'imm%d' % k, ['P_C01', 'ENTRY=2', 'KIND=%d' % k, 'CB_BUDGET=0', 'NO_CANCEL'], timeout=600 * T, witness=(k == 1)))
+    # nested random regions below an orthogonal region; region heads may report utility 0 (the regions are still resolved
+    # and every one of them consumes its random number)
+    o = dict(sublimit=2, callbacks=['guard', 'life', 'select', 'util'], act=[], kinds=0)
+    fx = fixture('C01', 'fnn', o)
+    for k in (1, 6):
+        L.append(fsm_case('C01', fx, 'imm%d' % k, ['P_C01', 'ENTRY=2', 'KIND=%d' % k, 'CB_BUDGET=0', 'NO_CANCEL', 'UTIL_HEAD_ZERO'], timeout=900 * T, witness=(k == 6)))
     if tier == 'thorough':
         # deep nesting below an orthogonal region: every ordered pair of destinations of a 2-request batch (kinds symbolic), callbacks silent
         o = dict(sublimit=2, callbacks=['guard', 'life', 'select'], act=[], kinds=0)
